@@ -19,16 +19,34 @@ def repo_src() -> str:
     return os.environ.get("VERIF_REPO_SRC", "/repo/hugr-py/src")
 
 
+class _TargetTimeout(Exception):
+    pass
+
+
 def _verify_one(args):
     files, target, tier, src = args
     sys.path.insert(0, VERIF)
-    from pyvc.vc import Verifier, load_contracts
+    import signal
+    from pyvc.vc import FuncReport, Verifier, load_contracts
     from pyvc.front import load_world
-    w = load_world(src)
-    cdb = load_contracts(w, files)
-    v = Verifier(w, cdb, tier)
-    rep = v.verify(target)
-    return rep.to_dict()
+    limit = int(os.environ.get("VERIF_TARGET_TIMEOUT", "900" if tier == "quick" else "3600"))
+
+    def on_alarm(signum, frame):
+        raise _TargetTimeout()
+    signal.signal(signal.SIGALRM, on_alarm)
+    signal.alarm(limit)
+    try:
+        w = load_world(src)
+        cdb = load_contracts(w, files)
+        v = Verifier(w, cdb, tier)
+        rep = v.verify(target)
+        return rep.to_dict()
+    except _TargetTimeout:
+        rep = FuncReport(target)
+        rep.error = f"timeout: verification of this function exceeded {limit}s"
+        return rep.to_dict()
+    finally:
+        signal.alarm(0)
 
 
 def prove(files: list[str], targets: list[str], tier: str, jobs: int = 14) -> list[dict]:
